@@ -1,6 +1,8 @@
 //! Drivers for the expression-level properties: C01, C06, C12, C13.
 mod c01;
 mod c06;
+mod c12;
+mod c12_lits;
 
 use pvcore::run::*;
 use pvcore::sweep::*;
@@ -56,5 +58,6 @@ fn main() {
     main_with(&[
         Entry { id: "C01", level: "exploration", meta: c01::meta, run: c01::run, replay: c01::replay },
         Entry { id: "C06", level: "exploration", meta: c06::meta, run: c06::run, replay: c06::replay },
+        Entry { id: "C12", level: "model_checking", meta: c12::meta, run: c12::run, replay: c12::replay },
     ])
 }
